@@ -48,8 +48,18 @@ def solve_for_scalar(f: Basic, symbol: Basic, **flags: Any) -> list[Eq]:
     """
 
     flags["dict"] = True
-    solution = sym_solve(f, symbol, **flags)[0]
-    return [Eq(lhs, rhs) for lhs, rhs in solution.items()]
+
+    for solution in sym_solve(f, symbol, **flags):
+        equations = [Eq(lhs, rhs) for lhs, rhs in solution.items()]
+
+        # the root contradicts the assumptions of the unknown, eg norm of a vector is not negative,
+        # and the equation evaluates to `False`
+        if any(equation == False for equation in equations):  # pylint: disable=singleton-comparison
+            continue
+
+        return equations
+
+    return []
 
 
 def vector_equals(lhs: Expr, rhs: Expr) -> bool:
